@@ -41,6 +41,8 @@ type shardFile struct {
 	Notes       []string          `json:"notes,omitempty"`
 	WallS       float64           `json:"wall_s"`
 	Complete    bool              `json:"complete"`
+	SlowestS    float64           `json:"slowest_case_s"`
+	SlowestCase json.RawMessage   `json:"slowest_case,omitempty"`
 }
 
 // Rec collects the evidence of one property in one shard process.
@@ -60,6 +62,9 @@ type Rec struct {
 	start    time.Time
 	nviol    int
 	maxSamp  int
+	began    time.Time
+	slowest  float64
+	slowCase json.RawMessage
 }
 
 var (
@@ -111,6 +116,9 @@ func hashOf(b []byte) string {
 // (engine panic in a background goroutine, race abort, watchdog) still
 // leaves the input behind.
 func (r *Rec) Begin(c []byte) {
+	r.mu.Lock()
+	r.began = time.Now()
+	r.mu.Unlock()
 	_ = os.WriteFile(filepath.Join(r.dir, fmt.Sprintf("current_case_%s_%d.json", r.prop, r.shard)), c, 0o644)
 }
 
@@ -119,6 +127,14 @@ func (r *Rec) End(c []byte, nontrivial bool, classes ...string) {
 	r.mu.Lock()
 	defer r.mu.Unlock()
 	r.evals++
+	if !r.began.IsZero() {
+		if d := time.Since(r.began).Seconds(); d > r.slowest {
+			r.slowest = d
+			if len(c) < 200000 {
+				r.slowCase = append(json.RawMessage(nil), c...)
+			}
+		}
+	}
 	for _, k := range classes {
 		r.classes[k]++
 	}
@@ -177,6 +193,7 @@ func (r *Rec) flush(complete bool) {
 		Classes: r.classes, Counters: r.counters, Samples: r.samples,
 		Known: r.known, Notes: r.notes,
 		WallS: time.Since(r.start).Seconds(), Complete: complete,
+		SlowestS: r.slowest, SlowestCase: r.slowCase,
 	}
 	for h := range r.nontriv {
 		sf.Nontrivial = append(sf.Nontrivial, h)
